@@ -184,6 +184,16 @@ def join(a: AVal, b: AVal, depth=MAX_DEPTH) -> AVal:
     if depth <= 0:
         return summarise(join_shallow(a, b))
     types = a.types | b.types
+    if any(t.startswith("!") for t in types):
+        # "known not to be T" survives a join only if the other side cannot be T either
+        keep = set()
+        for x, y in ((a, b), (b, a)):
+            for t in x.types:
+                if t.startswith("!"):
+                    tag = t[1:]
+                    if tag not in y.types and (t in y.types or not (y.types & {"json", "any"})):
+                        keep.add(t)
+        types = frozenset(t for t in types if not t.startswith("!")) | keep
     elem = _join_opt(a.elem, b.elem, depth - 1)
     key = _join_opt(a.key, b.key, depth - 1)
     tup = None
@@ -254,7 +264,7 @@ def _merge_const(x, y):
 
 def join_shallow(a, b):
     return AVal(
-        types=a.types | b.types,
+        types=frozenset(t for t in (a.types | b.types) if not t.startswith("!")),
         org=frozenset(a.all_orgs() | b.all_orgs()),
         taint=max(a.taint, b.taint, min(1, max(max_taint(a), max_taint(b)))),
         nonempty=a.nonempty and b.nonempty,
